@@ -274,9 +274,21 @@ func postC20(rc *RunCtx, res *simrt.Result) {
 						rc.Probe("label_outside_known_dimensions:" + n)
 					}
 					lv := strings.ToLower(v)
+					// (a port anywhere in the value: "peer=52007", "from :52007"; the
+					// harness' ports are five digits that no key id, ASN or bucket has)
+					nums := map[string]bool{}
+					if n != "le" {
+						for _, t := range strings.FieldsFunc(lv, func(r rune) bool { return r < '0' || r > '9' }) {
+							nums[t] = true
+						}
+					}
 					for _, c := range d.clients {
-						if lv == c.port || c.morePorts[lv] {
-							rc.Failf("client-port-exposed", "metric %s label %s=%q equals a client's source port", mf.GetName(), n, v)
+						exposed := nums[c.port]
+						for p := range c.morePorts {
+							exposed = exposed || nums[p]
+						}
+						if exposed {
+							rc.Failf("client-port-exposed", "metric %s label %s=%q carries a client's source port", mf.GetName(), n, v)
 						}
 						for _, f := range c.forms {
 							if f != "" && strings.Contains(lv, f) {
